@@ -251,6 +251,17 @@ class World:
         _Connection.world, _Connection.instance = self, iid
         disp = ed.EventDispatcher(eng, cfg)
         self.instances[iid] = types.SimpleNamespace(id=iid, engine=eng, dispatcher=disp, config=cfg, alive=True)
+        # observe history appends in the effect trace (wrapper around the bound method; nothing in /repo changes)
+        orig = eng.update_execution_history
+        world = self
+
+        def logged(state_machine, execution_arn, update_type, details, _orig=orig, _iid=iid):
+            before = len(eng.execution_history.get(execution_arn, [])) if execution_arn in eng.execution_history else 0
+            _orig(state_machine, execution_arn, update_type, details)
+            after = len(eng.execution_history.get(execution_arn, [])) if execution_arn in eng.execution_history else 0
+            if after > before:
+                world.trace.append(("hist", _iid, execution_arn, update_type, details.get("name")))
+        eng.update_execution_history = logged
         disp.start()      # real wiring: declares queues, consumers, producers; sets the heartbeat timer
         return self.instances[iid]
 
